@@ -57,7 +57,7 @@ claim("C09", "DESIGN.md 6 C09", "C09_zip_rows (Tz): k-th row = k-th items positi
 claim("C10", "DESIGN.md 6 C10", "C10_chain_sequential (Pc): the sequential automaton accepts the poll list (an input is polled only when every earlier one has ended), results = items in order then None." + COMMON)
 claim("C11", "DESIGN.md 6 C11", "Slab refinement + trace theorems for FutureGroup over all histories of insert/remove/reserve/queries/poll/fire: exactly-once with the insert's key, discipline, len/keys/keys-distinct/capacity, None iff empty, ledger, insert never panics. Partial: extend and capacity-monotone are covered by the correspondence only." + COMMON)
 claim("C12", "DESIGN.md 6 C12", "The same theorems for StreamGroup: every item of every member exactly once in member order with its key; a member that ends is dropped in that poll and never polled again; None iff no members remain." + COMMON)
-claim("C16", "DESIGN.md 6 C16", "C16_join/merge/zip/group: in the selective strategy the model never polls a child whose last answer was Pending and whose slot has not fired since (ghost flag g_bad16 stays false for all histories); checked against the std build." + COMMON)
+claim("C16", "DESIGN.md 6 C16", "C16_join/merge/zip/group: in the selective strategy the model never polls a child whose last answer was Pending and whose slot has not fired since (ghost flag g_bad16 stays false for all histories); C16_*_trace: the same as a statement about the observable trace alone - the boolean monitor mon16, which recomputes the bookkeeping from the events, accepts every trace of the model (Section GhostTrace: the ghost fields are a function of the trace in every reachable state); checked against the std build." + COMMON)
 claim("C17", "DESIGN.md 6 C17", "C17_merge_window: an input whose script is items only and never runs out has provenance in any n consecutive results, whatever the others do (generic fairness lemma of rotating scans)." + COMMON)
 claim("C19", "DESIGN.md 6 C19", "C19_wait_until_gate (Pw): polls are (deadline,Pending)* (deadline,a0) (inner,_)+; results are exactly the inner's non-Pending answers." + COMMON)
 claim("C20", "DESIGN.md 6 C20", "C20_*: after a Pending return with no insertion since, every awaited child has been polled - selective and non-selective strategies, join/try_join, merge, zip, groups. Partial: 'a never-completing child does not block its siblings' second sentence is covered by the selective-polling invariant + correspondence/monitor, not a separate theorem; race/race_ok poll every unfinished child each poll by the shape of their scan." + COMMON)
@@ -73,13 +73,13 @@ claim("C18", "DESIGN.md 6 C18",
 
 CO = (" The model is an acceptor at await-resolution granularity (Model/CoStream.v); the check derives the event list (source items, closure calls with their "
       "arguments, completions, drops, result) from every run of the real drivers under random wake-only and adversarial schedules - 14 adapter stacks x "
-      "for_each / try_for_each / collect, limits 1..3 and none, take 0..len+1, pending sources, failing and panicking closures, early drops - and requires "
+      "for_each / try_for_each / collect into Vec / collect into Result<Vec<_>, E>, limits 1..3 and none, take 0..len+1, pending sources, failing and panicking closures, early drops - and requires "
       "that the acceptor accepts it; a monitor re-evaluates the property on every trace. The theorems hold for every accepted event list and every adapter "
       "configuration. Partial: the poll-level behaviour of futures_buffered::FuturesUnordered and of the compiler-generated async state machines is not "
       "modelled, only their observable events.")
-claim("C13", "DESIGN.md 6 C13", "C13_within_limit (in-flight <= limit), C13_result_structured (a result only when nothing is in flight), C13_at_most_once (no closure called twice for an item), C13_nothing_after_end. Partial: the at-least-once half at Result is carried by the acceptor's Result rule + monitor, not yet a separate theorem." + CO,
+claim("C13", "DESIGN.md 6 C13", "C13_within_limit (in-flight <= limit), C13_result_structured (a result only when nothing is in flight), C13_at_most_once (no closure called twice for an item), C13_nothing_after_end. C13_at_least_once_each (when a result is returned without an error every taken item has been through every closure: exactly once)." + CO,
       "Coq proof of invariants over an acceptor + trace inclusion of the crate's observed runs")
-claim("C14", "DESIGN.md 6 C14", "C14_stops_taking (no source item after an error is recorded), C14_error_is_genuine (the reported error was returned by a closure future of the run), C14_result_structured / C14_ok_means_exhausted (Ok only with no error, nothing in flight and, without take, an exhausted source), C14_cancelled_work_never_completes." + CO,
+claim("C14", "DESIGN.md 6 C14", "For try_for_each and collect::<Result<Vec<_>, E>>(): C14_stops_taking (no source item after an error is recorded), C14_error_is_genuine (the reported error was returned by a closure future of the run), C14_result_structured / C14_ok_means_exhausted (Ok only with no error, nothing in flight and, without take, an exhausted source), C14_cancelled_work_never_completes." + CO,
       "Coq proof of invariants over an acceptor + trace inclusion of the crate's observed runs")
 claim("C15", "DESIGN.md 6 C15", "C15_enumerate_is_source_index, C15_source_items_numbered, C15_collect_all, C15_closures_once, C15_take_at_most / C15_take_exactly / C15_take_zero_takes_nothing (take(n): at most n items taken, result only after source end or n items or an error; take(0) takes none - the repaired behaviour)." + CO,
       "Coq proof of invariants over an acceptor + trace inclusion of the crate's observed runs")
